@@ -54,6 +54,8 @@ def handle (s : St) (ws : List String) : St × String :=
   | ["new", stmt, rn, tt, tm] => match stmt.toNat?, rn.toNat?, optB tt, optB tm with
     | some st, some rn, some (some tt), some (some tm) => ({ stmt := st, nextRunNo := rn, tt := tt, tm := tm }, "ok")
     | _, _, _, _ => (s, "bad-op")
+  | ["reg2"] => (s, " ".intercalate (tailS s))      -- (un)registration of a second plugin: no effect on the modelled observations
+  | ["unreg2"] => (s, " ".intercalate (tailS s))
   | ["kclose", r, _k] =>
     -- `kclose r k`: the child exits and, k scheduler steps later (anywhere between the exit of the process and the end of the
     -- `finish` transition), a fresh task calls close(); serially: childExit, then close — whatever k is
